@@ -761,6 +761,15 @@ impl WmoWriter {
             return Ok(());
         }
 
+        // The MODS name field holds 19 bytes and a terminator: refuse a longer name
+        // instead of cutting it (possibly inside a multi-byte character)
+        if let Some(set) = sets.iter().find(|set| set.name.len() > 19) {
+            return Err(WmoError::InvalidFormat(format!(
+                "doodad set name {:?} does not fit the 20-byte MODS name field",
+                set.name
+            )));
+        }
+
         let header = ChunkHeader {
             id: chunks::MODS,
             size: (sets.len() * 32) as u32, // 32 bytes per set
